@@ -119,7 +119,11 @@ impl<'a> LspServer<'a> {
                     }
                     self.handle_request(req);
                 }
-                lsp_server::Message::Response(_) => todo!(),
+                lsp_server::Message::Response(response) => {
+                    // This server never sends requests, so there is nothing to match the
+                    // response to. Ignore it.
+                    debug!("Ignoring unexpected response {:?}", response.id);
+                }
                 lsp_server::Message::Notification(notification) => {
                     self.handle_notification(&notification);
                 }
